@@ -1021,6 +1021,28 @@ func genSplit(t *tape.Tape, tier string) *c13Case {
 	g := model.Generate(t.Sub("scenario"), profSplit(t.Sub("profile")))
 	c.Scenario = g.S
 	c.Split, _ = splitLast(g.S, t.Sub("split"))
+	if tt := t.Sub("tworev"); tt.Chance(1, 25) {
+		// the module is loaded in two revisions, split alike (the input class
+		// of open finding C13-tworev-sub)
+		for _, sc := range []*model.Scenario{c.Scenario, c.Split} {
+			var m *model.Mod
+			for _, x := range sc.Mods {
+				if !x.IsSub() && x.Name != model.PosixModule {
+					m = x
+				}
+			}
+			if m == nil || len(m.Revs) > 0 {
+				break
+			}
+			m.Revs = []string{newerRev}
+			b, _ := json.Marshal(m)
+			older := &model.Mod{}
+			json.Unmarshal(b, older)
+			older.Revs = []string{olderRev}
+			older.Augments = nil
+			sc.Mods = append(sc.Mods, older)
+		}
+	}
 	names := sortedNames(model.RenderAll(c.Split))
 	st := t.Sub("schedules")
 	k := 3
@@ -1043,13 +1065,13 @@ func structural(ms *yang.Modules, s *model.Scenario) string {
 		if m.IsSub() {
 			continue
 		}
-		mod := ms.Modules[m.Name]
+		mod := ms.Modules[m.FullName()]
 		if mod == nil {
-			fmt.Fprintf(&sb, "== %s: missing\n", m.Name)
+			fmt.Fprintf(&sb, "== %s: missing\n", m.FullName())
 			continue
 		}
 		e := yang.ToEntry(mod)
-		fmt.Fprintf(&sb, "== %s\n", m.Name)
+		fmt.Fprintf(&sb, "== %s\n", m.FullName())
 		var ids []string
 		for _, id := range e.Identities {
 			var vs []string
@@ -1059,7 +1081,15 @@ func structural(ms *yang.Modules, s *model.Scenario) string {
 			ids = append(ids, fmt.Sprintf("identity %s values=%v", id.Name, vs))
 		}
 		// identities hoisted from submodules are listed by the submodule entries: collect through the owner name
+		// (the identities reported under a name are those of its latest revision:
+		// an older revision's section lists the tree only)
+		if ms.Modules[m.Name] != mod {
+			ids = nil
+		}
 		for _, sm := range dump.DistinctModules(ms.SubModules) {
+			if ms.Modules[m.Name] != mod {
+				break
+			}
 			if sm.BelongsTo != nil && sm.BelongsTo.Name == m.Name {
 				for _, id := range yang.ToEntry(sm).Identities {
 					var vs []string
@@ -1081,6 +1111,22 @@ func runSplit(c *c13Case, o *core.Outcome) {
 	if c.Scenario == nil || c.Split == nil {
 		o.Discard = "no-scenario"
 		return
+	}
+	for _, sc := range []*model.Scenario{c.Scenario, c.Split} {
+		if noRevPair(sc) {
+			// the input class of open finding C13-norev (revisions mode)
+			o.Discard = "name-with-and-without-revision"
+			return
+		}
+		seen := map[string]bool{}
+		for _, m := range sc.Mods {
+			if seen[m.FullName()] {
+				// (only shrinking produces this)
+				o.Discard = "same-module-twice"
+				return
+			}
+			seen[m.FullName()] = true
+		}
 	}
 	ta := model.RenderAll(c.Scenario)
 	a := runBatch(ta, sortedNames(ta), maporder.Canonical(), world.Options{})
@@ -1144,6 +1190,9 @@ func runSplit(c *c13Case, o *core.Outcome) {
 		if got := structural(b.Res.MS, c.Scenario); got != want {
 			o.Fail("split-differs", "execution %d (order %v, sites %v): the module split into submodules differs from the unsplit module:\n%s", i-1, r.Order, culpritSites(r.Sched), strings.Replace(strings.Replace(firstDiff(want, got), "canonical:", "unsplit :", 1), "this run :", "split   :", 1))
 			o.Culprits = culpritSites(r.Sched)
+			if twoRevsOneSub(tb) {
+				o.Culprits = append(o.Culprits, inputTwoRevsOneSub)
+			}
 			return
 		}
 	}
@@ -1255,16 +1304,24 @@ func (c13Driver) Shrink(cc core.Case) []core.Case {
 			ok := true
 			for _, m := range s.Mods {
 				if m.IsSub() && strings.Contains(m.Name, "-part") {
-					owner := s.Mod(m.BelongsTo)
-					found := false
-					if owner != nil {
+					// (every loaded revision of the module)
+					owners := 0
+					for _, owner := range s.Mods {
+						if owner.IsSub() || owner.Name != m.BelongsTo {
+							continue
+						}
+						owners++
+						found := false
 						for _, inc := range owner.Includes {
 							if inc.Sub == m.Name {
 								found = true
 							}
 						}
+						if !found {
+							ok = false
+						}
 					}
-					if !found {
+					if owners == 0 {
 						ok = false
 					}
 				}
@@ -1324,7 +1381,16 @@ func unsplit(s *model.Scenario) *model.Scenario {
 		m.Typedefs = append(tds, m.Typedefs...)
 		m.Groupings = append(grs, m.Groupings...)
 		m.Body = append(body, m.Body...)
-		m.Augments = append(augs, m.Augments...)
+		// of several revisions only the latest one augments (see genSplit)
+		latest := true
+		for _, x := range keep {
+			if x != m && x.Name == m.Name && x.LatestRev() > m.LatestRev() {
+				latest = false
+			}
+		}
+		if latest {
+			m.Augments = append(augs, m.Augments...)
+		}
 	}
 	n.Mods = keep
 	return n
